@@ -181,8 +181,10 @@ pub async fn history(mut sim: Sim, o: Opts) -> Result<Value, String> {
         if o.hetero {
             // in one run out of five nobody configures an idle timeout (30 s applies)
             let idle = if all_unset { None } else { Some([4_000u64, 10_000, 25_000][sim.rng.gen_range(0..3)]) };
-            // keep-alives, where used, are shorter than every node's idle timeout
-            let ka = if sim.rng.gen_bool(0.5) { Some(1_500u64) } else { None };
+            // keep-alives, where used, are mostly shorter than every node's idle timeout; one configured
+            // above it is a valid setting too (it never fires: quiet connections expire at the idle
+            // timeout that was configured, not later)
+            let ka = match sim.rng.gen_range(0..8) { 0..=3 => Some(1_500u64), 4 => Some(12_000), _ => None };
             quic(&mut cfg.config).max_idle_timeout_ms = idle;
             quic(&mut cfg.config).keep_alive_interval_ms = ka;
             // some nodes also accept an alternate network name (a different server configuration)
